@@ -44,10 +44,22 @@ def case(draw, tier):
     c = {"kind": kind, "n": n, "buffersize": bs, "cache": draw(st.booleans()),
          "fail_at": draw(st.one_of(st.none(), st.none(), st.none(), st.integers(0, n + 1), st.integers(max(0, n - 1), n + 1)))}
     nsteps = draw(gen.sizes(2, 20))
-    steps = [["new"], ["adv", 0, 2]]  # the first iterator is started: a sort only spills once a data row is requested
+    # openings: the first iterator is started (a sort only spills once a data row is requested); or a pass is
+    # completed first (so that a cache exists) and a second iterator is created and has read at most its header
+    steps = draw(st.sampled_from([
+        [["new"], ["adv", 0, 2]],
+        [["new"], ["exhaust", 0, 0], ["new"], ["adv", 0, 1]],
+        [["new"], ["exhaust", 0, 0], ["new"]],
+        [["new"], ["new"], ["adv", 0, 2]],
+        # an idle iterator created before any cache exists, a completed pass, a third iterator that has read only its
+        # header from the cache; when the idle one is started it re-sorts and replaces the cache under the third one
+        [["new"], ["new"], ["exhaust", 1, 0], ["new"], ["adv", 1, 1]],
+        [["new"], ["new"], ["exhaust", 1, 0], ["new"], ["adv", 1, 1], ["adv", 0, 2], ["adv", 1, 4]],
+    ]))
+    steps = [list(x) for x in steps]
     for _ in range(nsteps):
         k = draw(st.sampled_from(["adv", "adv", "adv", "new", "drop", "drop", "exhaust", "dropview", "fresh"]))
-        steps.append([k, draw(st.integers(0, 5)), draw(st.integers(1, 4))])
+        steps.append([k, draw(st.integers(0, 5)), draw(st.sampled_from([1, 2, 1, 3, 4]))])
     c["steps"] = steps
     return c
 
